@@ -926,3 +926,139 @@ func TestVfC18Resp(t *testing.T) {
 	wg.Wait()
 	fmt.Printf("VFSUMMARY {\"scenarios\":%d,\"crashes\":%d}\n", len(cases), crashes)
 }
+
+// ---------------------------------------------------------------- D: one session, two nodes that negotiate differently
+//
+// "Only used as negotiated" is a statement about each connection: node 1 advertises the configured algorithm and
+// compresses every RESULT it sends on connections that asked for it (literal-only encoders of this harness, TLC's
+// reference decoder re-reads every body), node 2 advertises another algorithm or none. Every answer node 1 compressed
+// is a vector of kind "resp" (stage mixed-session): a good compressed frame on a connection that negotiated the
+// algorithm must be delivered.
+func TestVfC18Mixed(t *testing.T) {
+	out, done := vfC18Open(t, "VF_C18_MIXED")
+	defer done()
+	nsess, nvec, skipped := 0, 0, 0
+	none, byTwo := 0, 0
+	problems := []string{}
+	for _, proto := range []int{3, 4} {
+		for _, conf := range []string{"snappy", "lz4"} {
+			other := map[string]string{"snappy": "lz4", "lz4": "snappy"}[conf]
+			for _, adv2 := range [][]string{{}, {other}, nil} {
+				nsess++
+				type sent struct {
+					node int
+					name string
+					body []byte
+				}
+				var mu sync.Mutex
+				var log []sent
+				cl := &vfCluster{Partitioner: "org.apache.cassandra.dht.Murmur3Partitioner", Version: "3.11.4"}
+				cl.Set([]vfHostDesc{vfDesc(1), vfDesc(2)})
+				mk := func(i int, adv []string) *vfNode {
+					n := vfNewNode(cl, vfDesc(i))
+					n.Supported = map[string][]string{"CQL_VERSION": {"3.4.5"}}
+					if adv != nil {
+						n.Supported["COMPRESSION"] = append([]string{}, adv...)
+					}
+					n.Decompress = func(name string, body []byte) ([]byte, error) {
+						cp := vfC18Compressor(name)
+						if cp == nil {
+							return nil, errors.New("vf: no compressor negotiated")
+						}
+						return cp.Decode(body)
+					}
+					n.Compress = func(nc *vfNodeConn, op byte, body []byte) ([]byte, bool) {
+						if op != vfOpResult || nc.Compression == "" {
+							return nil, false
+						}
+						var cb []byte
+						switch nc.Compression {
+						case "snappy":
+							cb = vfC18SnappyLiteral(body)
+						case "lz4":
+							cb, _ = vfC18LitLz4{}.Encode(body)
+						default:
+							return nil, false
+						}
+						mu.Lock()
+						log = append(log, sent{i, nc.Compression, append([]byte(nil), cb...)})
+						mu.Unlock()
+						return cb, true
+					}
+					return n
+				}
+				n1, n2 := mk(1, []string{conf}), mk(2, adv2)
+				var started2 int32
+				n2.Handler = func(nc *vfNodeConn, f *vfFrame, q *vfRequest) bool {
+					if f.Op == vfOpStartup {
+						atomic.StoreInt32(&started2, 1)
+					}
+					return false
+				}
+				d := vfNewDialer(n1, n2)
+				cfg := vfClusterConfig(d, proto, n1.Desc.Addr)
+				cfg.DefaultTimestamp = false
+				cfg.Timeout = 5 * time.Second
+				cfg.ConnectTimeout = 10 * time.Second
+				cfg.Compressor = vfC18Compressor(conf)
+				cfg.ReconnectionPolicy = &ConstantReconnectionPolicy{MaxRetries: 1, Interval: time.Millisecond}
+				s, err := NewSession(*cfg)
+				if err != nil {
+					problems = append(problems, fmt.Sprintf("mixed %s/%v proto %d: NewSession: %v", conf, adv2, proto, err))
+					n1.CloseAll()
+					n2.CloseAll()
+					continue
+				}
+				// the pool of node 2 fills in the background: wait until it has completed a handshake
+				for i := 0; i < 2000 && atomic.LoadInt32(&started2) == 0; i++ {
+					time.Sleep(time.Millisecond)
+				}
+				time.Sleep(5 * time.Millisecond) // (scheduling only: which node answers is recorded, not assumed)
+				for q := 0; q < 12; q++ {
+					mu.Lock()
+					before := len(log)
+					mu.Unlock()
+					err := s.Query(fmt.Sprintf("INSERT INTO ks.tbl (k) VALUES (%d)", q/4)).Exec()
+					mu.Lock()
+					news := append([]sent(nil), log[before:]...)
+					mu.Unlock()
+					// (a DML statement is prepared first: PREPARED and the RESULT of EXECUTE, both compressed by node 1)
+					fromOne := len(news) > 0
+					for _, x := range news {
+						if x.node != 1 {
+							fromOne = false
+						}
+					}
+					if len(news) == 0 {
+						none++
+					} else if !fromOne {
+						byTwo++
+					}
+					if !fromOne {
+						skipped++ // answered by node 2 / uncompressed: not a vector
+						continue
+					}
+					outcome, detail := "value", ""
+					if err != nil {
+						outcome, detail = "error", err.Error()
+						if strings.Contains(detail, "timeout") || strings.Contains(detail, "no connections") || strings.Contains(detail, "no hosts") {
+							problems = append(problems, "mixed: "+detail)
+							continue
+						}
+						news = news[len(news)-1:] // the query ended with the answer it could not take
+					}
+					for _, x := range news {
+						out.Emit(map[string]interface{}{"k": "resp", "negotiated": x.name, "stage": "mixed-session", "flag": true,
+							"kind": fmt.Sprintf("good-second-node-advertises-%v", adv2), "body": vfC18Ints(x.body), "outcome": outcome, "detail": detail})
+						nvec++
+					}
+				}
+				vfWithin(5*time.Second, s.Close)
+				n1.CloseAll()
+				n2.CloseAll()
+			}
+		}
+	}
+	pj, _ := json.Marshal(problems)
+	fmt.Printf("VFSUMMARY {\"sessions\":%d,\"vectors\":%d,\"skipped\":%d,\"uncompressed\":%d,\"by_node2\":%d,\"problems\":%s}\n", nsess, nvec, skipped, none, byTwo, pj)
+}
